@@ -180,6 +180,10 @@ pub fn new_iset(probe: &ProbeLog) -> InstructionSet {
         "VERIF.MyInstruction".to_string(),
         Instruction::new(|_st: &mut PushState, _c: &InstructionCache| {}),
     );
+    // ... without a dot, starting with a lower-case letter, starting with a digit
+    for name in ["VERIFSQUARE", "verif.lower", "2VERIF"].iter() {
+        iset.add(name.to_string(), Instruction::new(|_st: &mut PushState, _c: &InstructionCache| {}));
+    }
     let p2 = probe.clone();
     iset.add(
         "VERIF.SLEEP".to_string(),
